@@ -238,6 +238,7 @@ func c02Check(ctx *Ctx, idx int, cs coreCase) {
 					if derr != nil {
 						continue
 					}
+					dflt = emptyListsAsLists(dflt) // gqlparser hands an EMPTY list literal back as a nil slice (JSON null): the declared default is `[]`
 					if got, sent := c.Variables[vd.Variable]; sent {
 						if hx.Canon(toGeneric(got)) != hx.Canon(toGeneric(dflt)) {
 							ctx.Rep.Fail(hx.Failure{Kind: "property-fails", Class: c02Class(cs, "client-declared default"), Detail: fmt.Sprintf("client-declared default %s of $%s: the sub-request was sent with another value (sent: %v)", cvd.DefaultValue.String(), vd.Variable, hx.Canon(c.Variables)), Case: full, Impl: c.Query, Index: idx})
@@ -361,4 +362,25 @@ func runC02(ctx *Ctx) error {
 		c02Check(ctx, 900000+k, coreCase{FedSeed: seed, Query: op.Query, Vars: op.Variables, OpName: op.OpName, Kind: "query", Features: op.Features})
 	}
 	return nil
+}
+
+
+// emptyListsAsLists: the value a default literal denotes, independent of gqlparser's nil-slice
+// representation of empty lists.
+func emptyListsAsLists(v interface{}) interface{} {
+	switch x := v.(type) {
+	case []interface{}:
+		out := make([]interface{}, len(x))
+		for i, e := range x {
+			out[i] = emptyListsAsLists(e)
+		}
+		return out
+	case map[string]interface{}:
+		out := map[string]interface{}{}
+		for k, e := range x {
+			out[k] = emptyListsAsLists(e)
+		}
+		return out
+	}
+	return v
 }
